@@ -339,6 +339,13 @@ class ModelWeight(Contract):
                 yield {"model_axis": ma, "global_axis": ga, "which": "global", "kinds": ("fin", "fin"), "n_weights": 2, "dataset_weight": False}
             if tier == "thorough" or (ma, ga) == ("u2", "u4"):
                 yield {"model_axis": ma, "global_axis": ga, "which": "model", "kinds": ("fin", "fin"), "n_weights": 2, "dataset_weight": False}
+            # several weights of one dataset restricting different axes, in both orders (each weight acts on
+            # its own intervals only; one without interval acts everywhere)
+            mixes = [("global", "none"), ("none", "global"), ("global", "model"), ("model", "global"), ("both", "none"), ("model", "none")]
+            if tier == "quick":
+                mixes = {("u3", "nu3"): mixes[:2], ("u2", "u4"): mixes[2:4], ("one", "u3"): mixes[4:]}[(ma, ga)]
+            for mix in mixes:
+                yield {"model_axis": ma, "global_axis": ga, "which": "+".join(mix), "kinds": ("fin", "fin"), "n_weights": 2, "dataset_weight": False}
             yield {"model_axis": ma, "global_axis": ga, "which": "both", "kinds": ("fin", "fin"), "n_weights": 1, "dataset_weight": True}
             yield {"model_axis": ma, "global_axis": ga, "which": "other_dataset", "kinds": ("fin", "fin"), "n_weights": 1, "dataset_weight": False}
 
@@ -350,9 +357,10 @@ class ModelWeight(Contract):
         weights = []
         for k in range(case["n_weights"]):
             gi = mi = None
-            if case["which"] in ("global", "both", "other_dataset"):
+            which = case["which"].split("+")[k] if "+" in case["which"] else case["which"]
+            if which in ("global", "both", "other_dataset"):
                 gi = (ext_real(S, f"glo{k}", case["kinds"][0]), ext_real(S, f"ghi{k}", case["kinds"][1]))
-            if case["which"] in ("model", "both", "other_dataset"):
+            if which in ("model", "both", "other_dataset"):
                 mi = (ext_real(S, f"mlo{k}", case["kinds"][0]), ext_real(S, f"mhi{k}", case["kinds"][1]))
             ds = ["other"] if case["which"] == "other_dataset" else ["ds", "other"]
             weights.append(Weight(datasets=ds, global_interval=gi, model_interval=mi, value=S.real(f"v{k}")))
